@@ -217,7 +217,8 @@ func solveAll(T, k, E *Term) []*Term {
 		l.addTerm(T, big.NewInt(1))
 		if c, ok := l.coef[k.id]; ok && (c.Cmp(big.NewInt(1)) == 0 || c.Cmp(big.NewInt(-1)) == 0) {
 			open := false
-			for id, a := range l.atom {
+			for _, id := range sortedAtomIDs(l.atom) {
+				a := l.atom[id]
 				if id != k.id && a.open {
 					// an atom containing k non-linearly (e.g. an ite): try its branches
 					if a.Op == "app" && a.Name == "ite" {
@@ -248,7 +249,8 @@ func solveAll(T, k, E *Term) []*Term {
 			}
 		}
 		// k only inside an ite atom
-		for _, a := range l.atom {
+		for _, id := range sortedAtomIDs(l.atom) {
+			a := l.atom[id]
 			if a.open && a.Op == "app" && a.Name == "ite" && mentions(a, k) {
 				var out []*Term
 				for _, br := range a.Args[1:] {
@@ -262,6 +264,15 @@ func solveAll(T, k, E *Term) []*Term {
 		return []*Term{r}
 	}
 	return nil
+}
+
+func sortedAtomIDs(m map[int]*Term) []int {
+	ids := make([]int, 0, len(m))
+	for id := range m {
+		ids = append(ids, id)
+	}
+	sort.Ints(ids)
+	return ids
 }
 
 type idxPattern struct {
